@@ -181,6 +181,7 @@ def main():
             jobs=[s.summary() for s in states],
             bounds_completed=[s.job['label'] for s in complete],
             bounds_not_completed=[s.job['label'] for s in states if s not in complete],
+            jobs_without_feasible_path=[s.job['label'] for s in states if s.done and s.paths == 0],
             functions_encoded=sorted(funcs_hit), std_models_used=sorted(models_hit), mir_dump_sha256=hashlib.sha256(open(paths['mir'], 'rb').read()).hexdigest(),
             tree_hash=paths['hash'], unencoded_paths=unenc, unencoded_paths_sampled_natively=sum(getattr(s, 'unencoded_sampled', 0) for s in states), panicking_paths=sum(s.by_status.get('panic', 0) for s in states),
             panic_examples=[dict(msg=p['msg'], input=describe_values(p['values'] or {})) for p in panics[:3]],
@@ -202,6 +203,9 @@ def main():
     log(f'{prop}: {total_paths} paths, {ev["coverage"]["obligations"]} obligations ({ev["coverage"]["discharged"]} discharged), '
         f'{len(complete)}/{len(states)} jobs complete, {ev["coverage"]["traces_validated_against_impl"]} native validations, '
         f'unencoded {sum(unenc.values())}, panicking paths {ev["coverage"]["panicking_paths"]}, {ev["wall_s"]}s')
+    empty = [s.job['label'] for s in states if s.done and s.paths == 0]
+    if empty:
+        log(f'NO-FEASIBLE-PATH: {len(empty)} job(s) explored nothing (their assumptions contradict each other): ' + '; '.join(empty[:4]) + (' ...' if len(empty) > 4 else ''))
     if unenc:
         for k, v in list(unenc.items())[:5]:
             log(f'  unencoded x{v}: {k}')
@@ -229,6 +233,8 @@ def main():
         rc = rc or 2
     if unenc:
         rc = rc or 2
+    if empty and not violations:
+        rc = rc or 2      # a job whose assumptions are unsatisfiable is a broken job: nothing it was meant to cover was covered
     if kani_res and kani_res.get('failed'):
         log(f"KANI-FAILED: {kani_res['failed']} (second engine disagrees on a leaf invariant; see evidence.kani) - no verdict from this run")
         rc = rc or 2
